@@ -19,8 +19,8 @@ for line in open(os.path.join(V, 'properties.jsonl')):
 	TITLES[d['id']] = d['title']
 
 OPEN = {
-	'C01': 'Open: the same statement for the start-line and header-block layers as one theorem (eager header consumption makes the intermediate states differ; the final outcomes are compared under every generated fragmentation). The full property is false of the code as it stands: F17, F18, F19 (kernel-evaluated witnesses).',
-	'C02': 'Whole pipelines are a theorem (`pipeline_mixed`): start line, header section and body of every message through the outer loop, Content-Length and chunked framing mixed, both sides; the per-message hypotheses (`Good`, `GoodC`) are stated through the model functions for the start line and the header hooks, whose own round trips are C18, C10, C08. Open: the prefix clause for cuts inside the start line or header section (the body layer is C01; the rest is correspondence over every cut) and chunked bodies with trailer fields inside the pipeline theorem (`trailers_stable_*` cover the trailer reader alone).',
+	'C01': 'The property as stated (every byte stream) is false of the code: F17, F18, F19 (kernel-evaluated witnesses). Proved: the body layer for all inputs; the header section for well-formed sections cut anywhere (`headers_fragmentation`); the whole loop for well-formed Content-Length pipelines in any fragmentation (`fragmentation_independent`, `feedAll_prefix`, `Props/C01Pipeline.lean`). Open: chunked messages inside the loop-level theorem (the chunked reader has its own fragmentation theorem), and a characterisation of the malformed streams on which the code is still fragmentation independent.',
+	'C02': 'Whole pipelines are a theorem (`pipeline_mixed`): start line, header section and body of every message through the outer loop, Content-Length and chunked framing mixed, both sides; the per-message hypotheses (`Good`, `GoodC`) are stated through the model functions for the start line and the header hooks, whose own round trips are C18, C10, C08. The prefix clause is `feedAll_prefix` (Content-Length framed pipelines, every cut). Open: chunked bodies inside the prefix theorem and chunked bodies with trailer fields inside the pipeline theorem (`trailers_stable_*` cover the trailer reader alone).',
 	'C03': 'Stack depth and running time are runtime behaviour: measured (deep inputs under a lowered recursion limit; long runs with hostile tails under a wall-clock budget in a child interpreter), not proved. zlib, email.header.decode_header and the idna codec are outside the model (`needsOracle`); for those inputs only the oracle on the real code speaks.',
 	'C04': 'Responses: one theorem for the whole message (`response_roundtrip`, `response_roundtrip_chunked`), composed of C18 (`response_line_roundtrip`), C08 (`compose_parse_roundtrip`), C05/C14 (`chunkFrame`) and the pipeline theorem of C02. Open: the same for requests (the target passes through URI parse, normalisation, the 301 rule and the Host hooks: each link proved or tied separately, the conjunction decided by the oracle) and for content codings inside the whole-message statement.',
 	'C05': 'Idempotence of prepare() is proved for requests and for responses other than to HEAD (`prepareRequest_idem`, `prepareResponse_idem`); the HEAD exception is finding F46. Non-destructiveness of body sources (file positions, generator buffering) is behaviour of Python objects: decided by repeated composition on the real code.',
@@ -29,7 +29,7 @@ OPEN = {
 	'C08': 'The round-trip clause is a theorem (`compose_parse_roundtrip`, `Proofs/HeadersRoundtrip.lean`) for collections without list-valued fields; those (Set-Cookie, WWW-Authenticate, Proxy-Authenticate) are composed field-specifically and judged by the oracle.',
 	'C09': 'The whole element is a theorem (`element_roundtrip`, `Proofs/ElementRoundtrip.lean`): a value and any number of parameters with pairwise different canonical keys and ASCII values free of double quotes parse back in order; the proof carries quote parity across parameters, so no `;` or `,` inside a quoted value cuts and no parameter merges with its neighbour. The list clause is `list_roundtrip` (split of join gives back the composed elements, each parses to its element). Open as theorems: RFC 2231 continuations and RFC 5987 extended values - tied by correspondence for the four element classes.',
 	'C10': 'Proved: the three inner cuts (userinfo, host:port, path) and the five outer cuts (`uri_cuts`, `compose_assemble`): no component leaks into its neighbour. Open as one theorem: the final record (class by scheme, port defaults) - correspondence/oracle. IPv6 literals and IDN hosts go through socket/idna: oracle only.',
-	'C11': 'The RFC clause is now a theorem (`abspath_eq_rfc`, `normalize_path_rfc`; `Proofs/Rfc.lean`, `Proofs/RfcAbspath.lean`): the buffer-rewriting loop of RFC 3986 §5.2.4 is shown to be a stack machine on segments, and `abspath` (whose stack also holds, and may pop, the root segment) is related to it. Trusted there: the transcription of the RFC text.',
+	'C11': 'The RFC clause is a theorem for `abspath()` itself (`abspath_eq_rfc`, `normalize_path_rfc`; `Proofs/Rfc.lean`, `Proofs/RfcAbspath.lean`): the buffer-rewriting loop of RFC 3986 §5.2.4 is shown to be a stack machine on segments, the segment loop of `abspath` (`abspathCore`, whose stack also holds, and may pop, the root segment) is related to it, and the root that the loop may have popped is what `abspath` restores since the F60 repair. Trusted there: the transcription of the RFC text.',
 	'C12': 'Degenerate references ("?", "#", "//", "s:") are outside the quantifier.',
 	'C13': 'The unguarded statement is false of the code (F1); `unquote_quote_fixed` proves it for the `%02X` variant, `c13_witness` exhibits the failure.',
 	'C14': 'zlib itself is a parameter. JSON and message/http: oracle on the real code.',
